@@ -51,7 +51,19 @@ pub fn install_logger() {
     log::set_max_level(log::LevelFilter::Off);
 }
 
+/// Every spec of every scenario is generated through here: the scenario's own generator, then the
+/// run's call-site mode (one run in four resolves every call the way generic code does).
+pub fn generate(scn: &dyn Scenario, rng: &mut Prng, tier: Tier) -> Spec {
+    let mut spec = scn.generate(rng, tier);
+    spec.generic = rng.chance(1, 4);
+    spec
+}
+
 pub fn execute_guarded(scn: &dyn Scenario, spec: &Spec, st: &mut Stats) -> RunEnd {
+    crate::gens::set_call_generic(spec.generic);
+    if spec.generic {
+        st.count("probe:generic_call_sites");
+    }
     log::set_max_level(if spec.logger { log::LevelFilter::Trace } else { log::LevelFilter::Off });
     if spec.logger {
         st.count("fault:trace_logger_enabled");
@@ -95,7 +107,7 @@ pub const DIGEST_STRIDE: u64 = 97;
 
 fn one_run(scn: &dyn Scenario, tier: Tier, seed: u64, idx: u64, st: &mut Stats) -> (Spec, RunEnd, u64) {
     let mut rng = Prng::new(run_seed(seed, scn.id(), idx));
-    let spec = scn.generate(&mut rng, tier);
+    let spec = generate(scn, &mut rng, tier);
     st.log = Default::default();
     let r = execute_guarded(scn, &spec, st);
     let mut d = st.log.clone();
@@ -350,7 +362,7 @@ pub fn parent(scn: &dyn Scenario, tier: Tier, seed: u64) -> i32 {
         for w in &died {
             if let Some(idx) = crash_hunt(&exe, id, tier, seed, *w, nw, total) {
                 let mut rng = Prng::new(run_seed(seed, id, idx));
-                let spec = scn.generate(&mut rng, tier);
+                let spec = generate(scn, &mut rng, tier);
                 let path = replays.join(format!("{}-{}-{}.json", id, seed, idx));
                 let mut rf = ReplayFile {
                     property: id.to_string(),
@@ -838,7 +850,7 @@ pub fn parent_c18(scn: &dyn Scenario, tier: Tier, seed: u64, bins: &[(String, St
         // regenerate the spec of that run and locate the first differing operation by running it
         // in both configurations
         let mut rng = Prng::new(run_seed(seed, id, *idx));
-        let spec = scn.generate(&mut rng, tier);
+        let spec = generate(scn, &mut rng, tier);
         std::fs::create_dir_all(&replays).ok();
         let path = replays.join(format!("{}-{}-{}.json", id, seed, idx));
         let pa = bins.iter().find(|x| x.0 == *a).map(|x| x.1.clone()).unwrap_or_default();
